@@ -97,16 +97,19 @@ func sameBytes(a, b []byte) bool { return len(a) == len(b) && (len(a) == 0 || by
 
 // c11Header checks NewPESHeader on the complete PES bytes.
 func c11Header(p *ref.PES, order int) *hx.Failure {
-	raw := p.Bytes()
+	raw, spareIntact := withSpare(p.Bytes())
 	keep := clone(raw)
 	h, err := pes.NewPESHeader(raw)
 	if err != nil {
 		return hx.Failf("pes-error", "NewPESHeader failed on a well-formed PES start (stream_id %#x pts_dts %d header_data_length %d data %d bytes): %v", p.StreamID, p.PTSDTS, p.HeaderDataLength(), len(p.Data), err)
 	}
-	if !bytes.Equal(keep, raw) {
-		return hx.Failf("pes-mutates", "NewPESHeader modified its input")
+	if f := c11CompareHeader(h, p, order); f != nil {
+		return f
 	}
-	return c11CompareHeader(h, p, order)
+	if !bytes.Equal(keep, raw) || !spareIntact() {
+		return hx.Failf("pes-mutates", "NewPESHeader or a getter modified its input (or the spare capacity behind it)")
+	}
+	return nil
 }
 
 // c11CompareHeader compares every getter with the model; order selects the
